@@ -13,7 +13,7 @@ RULE = ("Flow A: as C01, but the verdict is exact equality of the emitted strand
         "equal the big-endian rendering of its documented value. Flow B: seeded orders 2..5, messages to 4096 bits, TLC recomputes "
         "the strand with limb arithmetic. Distinct non-trivial = distinct judged cases with a non-empty message / strand.")
 
-MINE = {"strand", "decode-of-documented-strand", "decoded-value", "wrong-length"}
+MINE = {"strand", "decode-of-documented-strand", "decoded-value", "wrong-length", "rejects-walk"}
 
 
 def run(ctx):
@@ -24,12 +24,16 @@ def run(ctx):
     nd = c06.flow_a(ctx, MINE, walks_only=True)
     nb = c01.flow_b(ctx, MINE, 40 if ctx.quick else 300, 512 if ctx.quick else 4096, 5)
     nb2 = c06.flow_b(ctx, MINE, 150 if ctx.quick else 1500, 5, walks_bias=0.9)
+    ns = 0
+    if not ctx.quick:
+        from vlib import suiteflow
+        ns = suiteflow.judge(ctx, mine_coding=MINE)      # Flow S: the repository's own tests as trace sources
     ctx.exhaustive = ctx.quick
     ctx.assumptions += ["the reference strand is the specification's encoder, shown by TLC to satisfy the declarative DocScheme "
                         "on the model-checking scope and by Apalache (Ind_Mix) to be the mixed-radix representation for unbounded values"]
     from vlib import apalache
     ctx.notes["unbounded_lemmas"] = apalache.lemmas(["Ind_Mix"], ctx)
-    return {"scope": {"flowA_behaviours": na, "flowA_decodes": nd, "flowB_cases": nb + nb2}}
+    return {"scope": {"flowA_behaviours": na, "flowA_decodes": nd, "flowB_cases": nb + nb2, "suite_cases": ns}}
 
 
 replay = c01.replay
